@@ -84,6 +84,11 @@ type DB struct {
 
 	lock sync.RWMutex // Guards list of inmemory tables, not individual reads and writes.
 
+	// leaseLock serialises the lease transactions of all Sequence objects of this DB. Two objects
+	// on one key must never both read the same stored lease and extend it; the conflict check of
+	// the transactions prevents that only while Options.DetectConflicts is on.
+	leaseLock sync.Mutex
+
 	dirLockGuard *directoryLockGuard
 	// nil if Dir and ValueDir are the same
 	valueDirGuard *directoryLockGuard
@@ -1331,6 +1336,8 @@ func (seq *Sequence) Next() (uint64, error) {
 func (seq *Sequence) Release() error {
 	seq.lock.Lock()
 	defer seq.lock.Unlock()
+	seq.db.leaseLock.Lock()
+	defer seq.db.leaseLock.Unlock()
 	err := seq.db.Update(func(txn *Txn) error {
 		item, err := txn.Get(seq.key)
 		if err != nil {
@@ -1365,6 +1372,8 @@ func (seq *Sequence) updateLease() error {
 	// (e.g. with ErrConflict when another Sequence object leases concurrently), and a caller
 	// retrying Next must not be served from a lease that was never stored.
 	var next, lease uint64
+	seq.db.leaseLock.Lock()
+	defer seq.db.leaseLock.Unlock()
 	err := seq.db.Update(func(txn *Txn) error {
 		item, err := txn.Get(seq.key)
 		switch {
